@@ -4,7 +4,7 @@
     [thr_val] embeddings, and that a capped search answers with EVERYTHING or with NOTHING — never with "the first k
     embeddings in enumeration order", which would make the answer depend on how the inputs are written.  Which of the
     two it is, is decided by counts that do not depend on the writing. *)
-From Coq Require Import List NArith ZArith Bool Arith Lia Permutation.
+From Coq Require Import List NArith ZArith Bool Arith Lia Permutation SetoidList SetoidPermutation.
 From SK Require Import lib.Tok lib.LGraph lib.Mono.
 From SK Require model.C06_Model model.C11_Model.
 From SK Require Import lib.C06_Spec proof.C06_All proof.C06_Comp proof.C06_CompSem proof.C06_Main.
@@ -106,6 +106,39 @@ Lemma capped_invariant sg pi (Hs : inj sg) (Hp : inj pi) (host host' : hostg) (p
   C06_Model.lenN (enum_all host' (relabel sg pat)) = C06_Model.lenN (enum_all host pat).
 Proof.
   intros HS. rewrite <- (enum_all_count_host_order _ _ _ HS). apply enum_all_count_relabel; assumption.
+Qed.
+
+(** the same for ANY rewriting — substrate and pattern both re-ordered (node lists, bond lists, bond orientation): the
+    two enumerations list the same monomorphisms, each exactly once up to the order of the pairs *)
+Lemma PermutationA_length' {X} (eqA : X -> X -> Prop) l l' : PermutationA eqA l l' -> length l = length l'.
+Proof. induction 1; simpl; congruence. Qed.
+
+Lemma enum_all_count_any_order (host host' : hostg) (pat pat' : molg) :
+  same_graph host host' -> same_graph pat pat' ->
+  gwf (host_c06 host) -> gwf (pat_c06 pat) -> gwf (host_c06 host') -> gwf (pat_c06 pat') ->
+  C06_Model.lenN (enum_all host' pat') = C06_Model.lenN (enum_all host pat).
+Proof.
+  intros HS PS Hw Pw Hw' Pw'. unfold enum_all, C06_Model.lenN. f_equal.
+  destruct (proj1 (monos_on_oracle_ok _ _ Hw Pw)) as (S1 & C1 & N1).
+  destruct (proj1 (monos_on_oracle_ok _ _ Hw' Pw')) as (S2 & C2 & N2).
+  apply (PermutationA_length' (@Permutation (N * N))).
+  apply NoDupA_equivlistA_PermutationA; [apply Permutation_Equivalence|exact N2|exact N1|].
+  intros m. rewrite !InA_alt. split.
+  - intros (m' & Pm & Im). apply S2 in Im.
+    destruct (C1 m' (is_mono_same host' host pat' pat m' (same_graph_sym _ _ HS) (same_graph_sym _ _ PS) Im)) as (m'' & I'' & P'').
+    exists m''. split; [etransitivity; eassumption|exact I''].
+  - intros (m' & Pm & Im). apply S1 in Im.
+    destruct (C2 m' (is_mono_same host host' pat pat' m' HS PS Im)) as (m'' & I'' & P'').
+    exists m''. split; [etransitivity; eassumption|exact I''].
+Qed.
+
+Lemma capped_invariant_any sg pi (Hs : inj sg) (Hp : inj pi) (host host'' : hostg) (pat pat'' : molg) :
+  same_graph (relabel pi host) host'' -> same_graph (relabel sg pat) pat'' ->
+  gwf (host_c06 (relabel pi host)) -> gwf (pat_c06 (relabel sg pat)) -> gwf (host_c06 host'') -> gwf (pat_c06 pat'') ->
+  C06_Model.lenN (enum_all host'' pat'') = C06_Model.lenN (enum_all host pat).
+Proof.
+  intros HS PS G1 G2 G3 G4. rewrite (enum_all_count_any_order _ _ _ _ HS PS G1 G2 G3 G4).
+  apply enum_all_count_relabel; assumption.
 Qed.
 
 (** ** a capped exhaustive search gives no result at all (and the property [its_list] returns the empty list) *)
